@@ -112,7 +112,18 @@ def sign(ctx: Ctx, t: Term, depth: int = 0) -> str:
         return "any"
     if k == "ifexp":
         a, b = S(t[2]), S(t[3])
-        return "nonneg" if a in ("pos", "nonneg") and b in ("pos", "nonneg") else "any"
+        if a in ("pos", "nonneg") and b in ("pos", "nonneg"):
+            return "nonneg"
+        # a clamp written as a conditional expression: `0.0 if x < 0 else x`, `x if x >= 0 else 0.0`
+        c = norm(t[1])
+        if c[0] == "cmp" and c[1] in ("<", "<="):
+            lo, hi = c[2], c[3]
+            zero = lambda y: y[0] == "const" and y[1] == 0 and not isinstance(y[1], bool)  # noqa: E731
+            if zero(hi) and norm(t[3]) == lo and a in ("pos", "nonneg"):
+                return "nonneg"  # x < 0 -> a (>= 0), else x (>= 0 on this branch)
+            if zero(lo) and norm(t[2]) == hi and b in ("pos", "nonneg"):
+                return "nonneg"  # 0 < x -> x, else b (>= 0)
+        return "any"
     return "any"
 
 
